@@ -5,6 +5,7 @@ package props
 
 import (
 	"fmt"
+	"math"
 	"math/rand/v2"
 	"sort"
 	"strings"
@@ -158,4 +159,16 @@ func truncInts(span int) []int {
 		}
 	}
 	return out
+}
+
+// clipInt converts a 64-bit constant to int, clipped to the range of int on
+// the platform the worker is built for (the 386 flavour has 32-bit ints).
+func clipInt(x int64) int {
+	if x > math.MaxInt {
+		return math.MaxInt
+	}
+	if x < math.MinInt {
+		return math.MinInt
+	}
+	return int(x)
 }
